@@ -4,7 +4,7 @@ from . import c05
 ID = 'C10'
 LEVEL = 'model_checking'
 BUDGET = {'quick': 290, 'thorough': 3300}
-BOUNDS = {'quick': 'every throwing call in all histories of depth 2 (56 operations incl. partly-invalid arguments: second of two new points/channels duplicate, untyped parameter into a new group, unnamed parameter, unknown group; 5 start states); full dump before = full dump after decided by z3 (payload symbolic); object printed, saved and reloaded afterwards',
+BOUNDS = {'quick': 'every throwing call in all histories of depth 2 (56 operations incl. partly-invalid arguments: second of two new points/channels duplicate, untyped parameter into a new group, unnamed parameter, unknown group; 6 start states); full dump before = full dump after decided by z3 (payload symbolic); object printed, saved and reloaded afterwards',
           'thorough': 'depth 3'}
 OUTSIDE = 'refusals not in the alphabet; histories deeper than the bound'
 ASSUMPTIONS = []
